@@ -684,8 +684,9 @@ func (h *paramHarness) ensureComp(name string) *paramComp {
 		h.c.Op(fmt.Sprintf("spect %s k:%s", name, hexS(k)), "ok")
 		h.c.Stat("spec " + name + " validator=" + strings.Fields(tok)[0] + " optional=" + b2s(s.IsOptional))
 		if strings.HasPrefix(tok, "unknown:") {
-			h.c.Fail("spec-table", "params:"+name+":"+k+":unknown-validator",
-				"the validator of this key is not one the model knows; extend Crem/Model/Params.lean and validatorToken", nil)
+			// the tie is broken (the model cannot name this validator), which is not by itself a failing input
+			h.c.Fail("structural:spec-table", "params:"+name+":"+k+":unknown-validator",
+				"the validator of this key is not one the model knows (the specification table no longer corresponds to Crem/Model/Params.lean); extend the model and validatorToken if the change is intended", nil)
 			continue
 		}
 		// the decidable hypothesis, evaluated directly on the implementation as well
